@@ -266,6 +266,32 @@ def rule_identity(ctx):
     for _p, im in all_items(items):
         if im["k"] == "Impl" and im["self_ty"] == "Assignment" and im["trait"] and im["trait"].split("<")[0] in ("Hash", "PartialEq", "Eq", "std::hash::Hash"):
             manual.append(im["trait"])
+    # the same for every other record kept in a set by this pass (the constraints that become secondary locations)
+    src_t = facts.src(SA)
+    for tn in sorted(set(re.findall(r"HashSet<\s*(\w+)\s*>", src_t)) - {"Assignment"}):
+        it2 = find_item(SA, "StructDef", tn)
+        if it2 is None:
+            continue
+        f2 = [f_["name"] for f_ in it2["fields"]]
+        tys2 = [f_["ty"].replace(" ", "") for f_ in it2["fields"]]
+        a2 = " ".join(it2.get("attrs", []))
+        m2 = [im["trait"] for _p, im in all_items(items) if im["k"] == "Impl" and im["self_ty"] == tn and im["trait"] and im["trait"].split("<")[0] in ("Hash", "PartialEq", "Eq", "std::hash::Hash")]
+        ok2 = "Meta" in tys2 and all(x in a2 for x in ("Hash", "PartialEq", "Eq")) and not m2
+        if not ok2 and "Meta" in tys2 and "PartialEq" in m2:
+            # a hand-written equality: it must compare the location-carrying field
+            from astlib import result_expr as _re2
+            from pathcond import split_cond as _sc2
+            import sgrep as _sg2
+
+            mf = f2[tys2.index("Meta")]
+            for q_, fn_ in fns_in_file(SA):
+                if fn_["name"] == "eq" and q_.replace(" ", "") == "PartialEqfor" + tn:
+                    r2 = _re2(fn_)
+                    pv2 = _sg2.params(fn_)
+                    o2 = pv2[0] if pv2 else "other"
+                    atoms2 = [render(a_[1]).replace(" ", "") for a_ in (_sc2(r2, True) if r2 is not None else []) if a_[0] == "if" and a_[2]]
+                    ok2 = any(t_ in ("(self.%s==%s.%s)" % (mf, o2, mf), "(%s.%s==self.%s)" % (o2, mf, mf)) for t_ in atoms2)
+        ctx.check(R, "%s/identity-includes-the-statement-location" % tn, ok2, "fields %s; derives `%s`; hand-written impls %s: records of two statements with the same text must stay two records (each is a location in a finding)" % (f2, a2, m2), site(SA, it2))
     ctx.check(R, "Assignment/identity-includes-the-statement-location", "meta" in fields and derived and not manual, "fields %s; derives `%s`; hand-written impls %s: with a hand-written Hash/Eq the location can be left out and two assignments to the same signal collapse into one record" % (fields, attrs, manual), site(SA, it))
     le_t = facts.src(SA)
     ctx.check(R, "AssignmentSet/is-a-set-of-records", re.search(r"type\s+AssignmentSet\s*=\s*HashSet<Assignment>", le_t) is not None, "")
@@ -436,6 +462,7 @@ def run(ctx):
     ctx.include("C08.6", "prerequisite shared with C18.1: the desugaring passes every expression of a statement on (through the matching remover or unchanged) on every path - a statement whose right-hand side is an anonymous component call keeps its `<--` inputs", c18.rule_flow)
     import c12
 
+    ctx.include("C08.9", "prerequisite shared with C18.4: the inputs of an anonymous component call are assigned with the operator written next to each name (`<--` stays `<--`), one assignment per declared input", c18.rule_binding, only=["anonymous/"])
     ctx.include("C08.8", "prerequisite shared with C12.2/C13.3: the lifting keeps every statement of an initialisation block and of a block, in source order (the statements a `signal x <-- e` declaration desugars to are nested in such blocks)", c12.rule_lifting, only=["statements-in-source-order", "statement-kept", "every-statement-visited"])
     rule_constraints(ctx)
     rule_constraint_lookup(ctx)
